@@ -31,7 +31,13 @@ Dec07(e) == /\ e.ev = "dec"
             /\ e.hexbad = "ok" /\ e.hexlow.t # "panic" /\ e.hexup = e.hexlow
             /\ ("bytes" \in DOMAIN cs => DecRef(e))
 
-Ok(e) == IF Focus = "C05" THEN (IF cs.kind = "enc" THEN EncOk(e) ELSE (cs.valid => Dec05(e)))
+(* deep chains: the encoder's bytes are the OGC layout of the chain; decoding them, decoding the mixed-order encoding of the
+   case and decoding either as hex text all give back the same depth and a bit-identical leaf *)
+DeepOk(e) == /\ e.ev = "deep" /\ e.out = "ok" /\ e.err = ""
+             /\ e.bytes = EncBytes(DeepG(cs.leaf, cs.d), cs.bo) /\ e.hexsame
+             /\ \A i \in 1..3 : e.depths[i] = cs.d /\ e.leaves[i] = cs.leaf
+
+Ok(e) == IF Focus = "C05" THEN (IF cs.kind = "enc" THEN EncOk(e) ELSE IF cs.kind = "deep" THEN DeepOk(e) ELSE (cs.valid => Dec05(e)))
          ELSE IF cs.kind = "hexstr" THEN e.ev = "hexstr" /\ e.out = "ok" /\ e.res \in {"ok", "err"}     \* total on any string
          ELSE (cs.kind = "dec" => Dec07(e))
 Apply(e) == UNCHANGED cs
